@@ -73,10 +73,14 @@ type peer struct {
 	dropped bool
 	lastInv  wamp.ID // last invocation id received (hostile scenarios)
 	lastCall wamp.ID // last call request sent
+	unReq   map[wamp.ID]wamp.ID // UNSUBSCRIBE / UNREGISTER request -> the id it named
+	respond int                 // auto-responder: progressive results per invocation (0 = off)
 	subReq  map[wamp.ID]subInfo
 	subs    map[wamp.ID]subInfo
 	callReq map[wamp.ID]string
 	joined  bool
+	left    bool // a leave step was issued for the session
+	attachErr bool
 	tainted bool // offender or its partner in a hostile scenario: not observed
 	realm   int
 	local   bool
@@ -138,6 +142,8 @@ type Exec struct {
 	quit   chan struct{}
 	start  time.Time
 	poison bool
+	closed bool // router.Close was called
+	lastRet bool
 	*realmCtx
 	realms []*realmCtx
 }
@@ -167,6 +173,7 @@ func (x *Exec) RunScenario(sc *Scenario) {
 	x.quit = make(chan struct{})
 	x.start = time.Now()
 	x.poison = sc.Poison
+	x.closed = false
 
 	cfgs := sc.Realms
 	if len(cfgs) == 0 {
@@ -204,11 +211,18 @@ func (x *Exec) RunScenario(sc *Scenario) {
 	for _, in := range sc.Steps {
 		x.step(sc, in)
 	}
+	if n := len(sc.Steps); n > 0 && sc.Steps[n-1].Op == "burst" && sc.Steps[n-1].How == "mix" {
+		// after a mixed burst the routing state is not tracked any more: the scenario ends
+		sc.Epilogue = false
+	}
 	if sc.Epilogue {
+		// let every handler that is retrying a RESULT to a blocked caller finish
+		// (bounded by the result-retry period) before anybody is asked to leave
+		x.step(sc, Input{Op: "advance", Ms: 70_000})
 		hows := []string{"goodbye", "lost", "violation"}
 		n := 0
 		for _, name := range append([]string{}, x.order...) {
-			if p := x.peers[name]; p.joined && !p.dropped && !p.gone {
+			if p := x.peers[name]; p.joined && !p.dropped && !p.gone && !p.left {
 				x.step(sc, Input{Op: "leave", R: p.realm, S: name, How: hows[n%len(hows)]})
 				n++
 			}
@@ -327,6 +341,17 @@ func normInput(in Input) Input {
 	if in.Uri2 == nil {
 		in.Uri2 = []string{}
 	}
+	if in.Prog == nil {
+		in.Prog = []Program{}
+	}
+	for i := range in.Prog {
+		if in.Prog[i].Ops == nil {
+			in.Prog[i].Ops = []Input{}
+		}
+		for j := range in.Prog[i].Ops {
+			in.Prog[i].Ops[j] = normInput(in.Prog[i].Ops[j])
+		}
+	}
 	if in.F.Topic == nil {
 		in.F.Topic = []string{}
 	}
@@ -345,6 +370,7 @@ func (x *Exec) newPeer(name string, j Join) *peer {
 		stop:    make(chan struct{}),
 		resume:  make(chan struct{}),
 		subReq:  map[wamp.ID]subInfo{},
+		unReq:   map[wamp.ID]wamp.ID{},
 		subs:    map[wamp.ID]subInfo{},
 		callReq: map[wamp.ID]string{},
 	}
@@ -357,12 +383,24 @@ func (x *Exec) newPeer(name string, j Join) *peer {
 		rp = remotePeer{rtr}
 	}
 	if j.Local {
-		go func() { _ = x.rt.Attach(rp) }()
+		go func() {
+			if err := x.rt.Attach(rp); err != nil {
+				p.mu.Lock()
+				p.attachErr = true
+				p.mu.Unlock()
+			}
+		}()
 	} else {
 		// a network peer comes with transport details, including authentication
 		// data that must never be shown to other sessions (C12)
 		td := wamp.Dict{"kind": "verif", "auth": wamp.Dict{"cookie": "secret-" + name}}
-		go func() { _ = x.rt.AttachClient(rp, td) }()
+		go func() {
+			if err := x.rt.AttachClient(rp, td); err != nil {
+				p.mu.Lock()
+				p.attachErr = true
+				p.mu.Unlock()
+			}
+		}()
 	}
 	p.local = j.Local
 	// reader
@@ -377,7 +415,17 @@ func (x *Exec) newPeer(name string, j Join) *peer {
 					return
 				}
 				p.inbox = append(p.inbox, stamped{m, x.nowMs()})
+				n := p.respond
 				p.mu.Unlock()
+				if inv, ok := m.(*wamp.Invocation); ok && n > 0 {
+					// auto-responder of burst steps: n progressive results, then the final one
+					for i := 1; i <= n; i++ {
+						p.send(&wamp.Yield{Request: inv.Request, Options: wamp.Dict{"progress": true},
+							Arguments: wamp.List{"R." + strconv.Itoa(i)}, ArgumentsKw: wamp.Dict{"k": "R." + strconv.Itoa(i)}})
+					}
+					p.send(&wamp.Yield{Request: inv.Request, Options: wamp.Dict{},
+						Arguments: wamp.List{"R." + strconv.Itoa(n+1)}, ArgumentsKw: wamp.Dict{"k": "R." + strconv.Itoa(n+1)}})
+				}
 			case <-p.stall:
 				select {
 				case <-p.resume:
@@ -512,14 +560,14 @@ func (x *Exec) step(sc *Scenario, in Input) {
 	}
 	x.realmCtx = x.realms[in.R]
 	p := x.peers[in.S]
-	live := p != nil && p.joined && !p.dropped && !p.gone
+	live := p != nil && p.joined && !p.dropped && !p.gone && !p.left
 	skip := func() {
 		in.Op = "skip"
 		if x.alive {
 			x.emit(Event{Ev: "step", Scn: x.scn, In: in, Now: x.nowMs()})
 		}
 	}
-	if !x.alive && !(in.Op == "join" && x.cfg.Template) && in.Op != "addrealm" && in.Op != "advance" && in.Op != "snap" {
+	if !x.alive && !(in.Op == "join" && x.cfg.Template) && in.Op != "addrealm" && in.Op != "advance" && in.Op != "snap" && in.Op != "closerouter" {
 		return // the realm does not exist (yet, or any more): nothing to send to
 	}
 	req := wamp.ID(in.Req)
@@ -579,6 +627,9 @@ func (x *Exec) step(sc *Scenario, in Input) {
 			skip()
 			return
 		}
+		p.mu.Lock()
+		p.unReq[req] = x.subC.raw(in.ID)
+		p.mu.Unlock()
 		p.send(&wamp.Unsubscribe{Request: req, Subscription: x.subC.raw(in.ID)})
 	case "publish":
 		if !live {
@@ -611,6 +662,9 @@ func (x *Exec) step(sc *Scenario, in Input) {
 			skip()
 			return
 		}
+		p.mu.Lock()
+		p.unReq[req] = x.regC.raw(in.ID)
+		p.mu.Unlock()
 		p.send(&wamp.Unregister{Request: req, Registration: x.regC.raw(in.ID)})
 	case "call":
 		if !live {
@@ -665,6 +719,7 @@ func (x *Exec) step(sc *Scenario, in Input) {
 			skip()
 			return
 		}
+		p.left = true
 		switch in.How {
 		case "goodbye":
 			p.send(&wamp.Goodbye{Reason: wamp.CloseRealm, Details: wamp.Dict{}})
@@ -684,6 +739,20 @@ func (x *Exec) step(sc *Scenario, in Input) {
 		args, kw := x.metaArgs(in)
 		p.callReq[req] = string(uri)
 		p.send(&wamp.Call{Request: req, Options: wamp.Dict{}, Procedure: uri, Arguments: args, ArgumentsKw: kw})
+	case "burst":
+		x.burst(in)
+	case "stall":
+		if !live {
+			skip()
+			return
+		}
+		p.stall <- struct{}{}
+	case "resume":
+		if !live {
+			skip()
+			return
+		}
+		p.resume <- struct{}{}
 	case "hostile":
 		x.hostile(in)
 	case "advance":
@@ -699,8 +768,64 @@ func (x *Exec) step(sc *Scenario, in Input) {
 		synctest.Wait()
 		x.realmStarted(x.realmCtx)
 		return
-	case "rmrealm":
-		x.rt.RemoveRealm(x.uri)
+	case "rmrealm", "closerouter":
+		ret := make(chan struct{})
+		var release chan struct{}
+		if in.Gate && in.With != nil && in.With.Op == "join" && x.peers[in.With.S] == nil {
+			// the joining session is held right before its WELCOME is sent
+			release = make(chan struct{})
+			held := release
+			router.VerifGate = func(point string) {
+				if point == "attach.beforeWelcome" && held != nil {
+					h := held
+					held = nil
+					<-h
+				}
+			}
+			q := x.newPeer(in.With.S, in.With.Join)
+			q.send(&wamp.Hello{Realm: x.uri, Details: helloDetails(in.With.Join)})
+			q.joined = true
+			synctest.Wait()
+			in.With = &Input{Op: "none"}
+		}
+		if in.Op == "rmrealm" {
+			uri := x.uri
+			go func() { x.rt.RemoveRealm(uri); close(ret) }()
+		} else {
+			x.closed = true
+			go func() { x.rt.Close(); close(ret) }()
+		}
+		if in.With != nil {
+			// the next input arrives while the shutdown is in progress
+			if in.With.Op == "join" && x.peers[in.With.S] == nil {
+				q := x.newPeer(in.With.S, in.With.Join)
+				q.send(&wamp.Hello{Realm: x.uri, Details: helloDetails(in.With.Join)})
+				q.joined = true
+			} else if q := x.peers[in.With.S]; q != nil && q.joined && !q.dropped && !q.gone {
+				x.sendConcurrent(q, *in.With)
+			}
+		}
+		synctest.Wait()
+		if release != nil {
+			close(release)
+			synctest.Wait()
+			router.VerifGate = func(string) {}
+		}
+		select {
+		case <-ret:
+			x.lastRet = true
+		default:
+			// the shutdown may legitimately wait for a handler that is retrying
+			// a RESULT to a blocked caller (bounded by the result-retry period)
+			time.Sleep(70 * time.Second)
+			synctest.Wait()
+			select {
+			case <-ret:
+				x.lastRet = true
+			default:
+				x.lastRet = false
+			}
+		}
 	default:
 		panic("harness: unknown op " + in.Op)
 	}
@@ -713,6 +838,7 @@ func (x *Exec) step(sc *Scenario, in Input) {
 		}
 		x.realmCtx = rc
 		ev := Event{Ev: "step", Scn: rc.scn, In: in}
+		ev.In.With = nil
 		switch {
 		case in.Op == "advance" || in.Op == "snap":
 			// time and the final snapshot are global: every realm's trace has them
@@ -731,16 +857,32 @@ func (x *Exec) step(sc *Scenario, in Input) {
 		if in.Op == "snap" {
 			ev.Snap, ev.Gor = x.snapshot()
 		}
+		if in.Op == "rmrealm" || in.Op == "closerouter" {
+			ev.Ret = x.lastRet
+			ev.Withc = in.With != nil
+		}
+		if in.Op == "join" && rc.idx == in.R {
+			if q := x.peers[in.S]; q != nil {
+				q.mu.Lock()
+				ev.AttachErr = q.attachErr
+				q.mu.Unlock()
+			}
+		}
 		x.emit(ev)
 		if in.Op == "rmrealm" && rc.idx == in.R {
 			rc.alive = false
 		}
+
 	}
 }
 
 // snapshot returns the table sizes relative to the baseline taken right after
 // router start, and the number of router goroutines relative to the baseline.
 func (x *Exec) snapshot() ([]SnapKV, int) {
+	if x.closed {
+		// after Close nothing of the router may be left
+		return []SnapKV{}, x.routerGoroutines()
+	}
 	sizes, _, ok := router.VerifSnapshot(x.rt, x.uri)
 	if !ok {
 		return []SnapKV{{"unavailable", 1}}, 0
@@ -803,6 +945,19 @@ func (x *Exec) chk(id wamp.ID) wamp.ID {
 		x.badIDs++
 	}
 	return id
+}
+
+// seqOf parses the burst payload tags "B<sender>.<seq>" and "R.<seq>".
+func seqOf(tag string) (sender, seq int) {
+	if strings.HasPrefix(tag, "B") {
+		if i := strings.IndexByte(tag, '.'); i > 1 {
+			sender, _ = strconv.Atoi(tag[1:i])
+			seq, _ = strconv.Atoi(tag[i+1:])
+		}
+	} else if strings.HasPrefix(tag, "R.") {
+		seq, _ = strconv.Atoi(tag[2:])
+	}
+	return
 }
 
 func tagOf(args wamp.List, kw wamp.Dict) string {
@@ -903,11 +1058,19 @@ func (x *Exec) abstract(p *peer, s stamped) Msg {
 	case *wamp.Unsubscribed:
 		r := blank("UNSUBSCRIBED", s.t)
 		r.Req = int(m.Request)
+		// which subscription the acknowledged request named (harness bookkeeping;
+		// used by the ordering checks only)
+		if id, ok := p.unReq[m.Request]; ok {
+			r.Y = x.subC.of(id)
+		}
 		return r
 	case *wamp.Published:
 		r := blank("PUBLISHED", s.t)
 		r.Req = int(m.Request)
-		r.A = x.pubC.of(x.chk(m.Publication))
+		x.chk(m.Publication)
+		if m.Request < 100 { // requests >= 100 belong to bursts: publication id not compared
+			r.A = x.pubC.of(m.Publication)
+		}
 		return r
 	case *wamp.Registered:
 		r := blank("REGISTERED", s.t)
@@ -917,6 +1080,9 @@ func (x *Exec) abstract(p *peer, s stamped) Msg {
 	case *wamp.Unregistered:
 		r := blank("UNREGISTERED", s.t)
 		r.Req = int(m.Request)
+		if id, ok := p.unReq[m.Request]; ok {
+			r.Y = x.regC.of(id)
+		}
 		return r
 	case *wamp.Error:
 		r := blank("ERROR", s.t)
@@ -957,6 +1123,7 @@ func (x *Exec) abstract(p *peer, s stamped) Msg {
 		}
 		r.D = sortPairs(d)
 		r.P = tagOf(m.Arguments, m.ArgumentsKw)
+		r.Y, r.X = seqOf(r.P)
 		return r
 	case *wamp.Result:
 		r := blank("RESULT", s.t)
@@ -977,6 +1144,7 @@ func (x *Exec) abstract(p *peer, s stamped) Msg {
 			return r
 		}
 		r.P = tagOf(m.Arguments, m.ArgumentsKw)
+		_, r.X = seqOf(r.P)
 		return r
 	case *wamp.Interrupt:
 		r := blank("INTERRUPT", s.t)
@@ -1020,9 +1188,12 @@ func (x *Exec) abstractEvent(p *peer, m *wamp.Event, t int) Msg {
 		r.P = tagOf(m.Arguments, m.ArgumentsKw)
 		// testament publications (tags "T...") are published by the router's
 		// meta session; their publication id is not compared
-		if !strings.HasPrefix(r.P, "T") {
+		// ... as is the id of a publication of a burst (tags "B..."): no order of
+		// the concurrent publications is assumed
+		if !strings.HasPrefix(r.P, "T") && !strings.HasPrefix(r.P, "B") {
 			r.B = x.pubC.of(m.Publication)
 		}
+		r.Y, r.X = seqOf(r.P)
 		return r
 	}
 	// meta events: positional payload
@@ -1776,4 +1947,86 @@ func (p *peer) drop() {
 	close(p.stop)
 	synctest.Wait()
 	p.cli.Close()
+}
+
+// sendConcurrent submits an ordinary input without waiting for anything.
+func (x *Exec) sendConcurrent(p *peer, in Input) {
+	req := wamp.ID(in.Req)
+	uri := wamp.URI(unchars(in.URI))
+	a, kw := payload(in.Tag)
+	switch in.Op {
+	case "publish":
+		p.send(&wamp.Publish{Request: req, Options: pubOptions(x, in.O), Topic: uri, Arguments: a, ArgumentsKw: kw})
+	case "subscribe":
+		o := wamp.Dict{}
+		if in.O.Match != "" {
+			o["match"] = in.O.Match
+		}
+		p.mu.Lock()
+		p.subReq[req] = subInfo{string(uri), in.O.Match}
+		p.mu.Unlock()
+		p.send(&wamp.Subscribe{Request: req, Options: o, Topic: uri})
+	case "unsubscribe":
+		p.mu.Lock()
+		p.unReq[req] = x.subC.raw(in.ID)
+		p.mu.Unlock()
+		p.send(&wamp.Unsubscribe{Request: req, Subscription: x.subC.raw(in.ID)})
+	case "register":
+		p.send(&wamp.Register{Request: req, Options: wamp.Dict{}, Procedure: uri})
+	case "call":
+		o := wamp.Dict{}
+		if in.O.Tmo != 0 {
+			o["timeout"] = in.O.Tmo
+		}
+		p.send(&wamp.Call{Request: req, Options: o, Procedure: uri, Arguments: a, ArgumentsKw: kw})
+	case "yield":
+		p.send(&wamp.Yield{Request: wamp.ID(in.ID), Options: wamp.Dict{}, Arguments: a, ArgumentsKw: kw})
+	case "cancel":
+		p.send(&wamp.Cancel{Request: req, Options: wamp.Dict{}})
+	case "metacall":
+		args, k := x.metaArgs(in)
+		p.send(&wamp.Call{Request: req, Options: wamp.Dict{}, Procedure: uri, Arguments: args, ArgumentsKw: k})
+	case "leave":
+		if in.How == "goodbye" {
+			p.send(&wamp.Goodbye{Reason: wamp.CloseRealm, Details: wamp.Dict{}})
+		} else {
+			p.dropped = true
+			close(p.stop)
+			p.cli.Close()
+		}
+	}
+}
+
+// ---------------------------------------------------------------------------
+// C07 / C08: bursts - several sessions send their programs concurrently
+
+func (x *Exec) burst(in Input) {
+	var wg sync.WaitGroup
+	for _, pr := range in.Prog {
+		p := x.peers[pr.S]
+		if p == nil || !p.joined || p.dropped || p.gone {
+			continue
+		}
+		for _, op := range pr.Ops {
+			if op.Op == "respond" {
+				p.mu.Lock()
+				p.respond = op.ID
+				p.mu.Unlock()
+			}
+		}
+	}
+	for _, pr := range in.Prog {
+		p := x.peers[pr.S]
+		if p == nil || !p.joined || p.dropped || p.gone {
+			continue
+		}
+		wg.Add(1)
+		go func(p *peer, ops []Input) {
+			defer wg.Done()
+			for _, op := range ops {
+				x.sendConcurrent(p, op)
+			}
+		}(p, pr.Ops)
+	}
+	wg.Wait()
 }
